@@ -54,6 +54,8 @@ def settle(nx, dev):
             pending = len(dev.rx)
         if not pending and nx._comm._q_stream.empty():
             break
+        if not nx._thrd.thread_is_alive():
+            break                    # the stream thread died: nothing will ever settle
         time.sleep(0.0005)
     time.sleep(0.004)
 
@@ -111,6 +113,8 @@ def run_script(script):
                 samples = [tuple(int(x) for x in s.split(".")) for s in p[2].split("+")] if p[2] else []
                 dev.push(frame(int(p[1]), samples))
                 settle(nx, dev)
+                if not nx._thrd.thread_is_alive():
+                    break
         alive = nx._thrd.thread_is_alive()
         out = " ".join("q%d=%s" % (q, content(qs[q]) if q in qs else "-") for q in range(8))
         if not alive:
@@ -272,9 +276,13 @@ def main(run):
     rng = common.Rng(run.seed)
     if model_ok:
         cases = []
+        dead = 0
         for _ in range(25 if not run.thorough else 250):
             script = gen_script(rng, rng.randrange(4, 26))
             got = run_script(script)
+            dead += got.endswith("stream-thread-dead")
+            if dead > 3:
+                break                # enough evidence; every further case would only wait for a dead thread
             cases.append(dict(cmd="deliver %s %s" % ("".join("1" if e else "0" for e in EN), ";".join(script)), impl=got,
                               oracle=None, kind="script", key=tuple(script), nontrivial="|" in got or "," in got,
                               rerun=(lambda s=script: run_script(s))))
